@@ -49,7 +49,7 @@ pub struct CallRec {
     pub token_debug: Option<(String, String)>,
 }
 
-const REQ_TRANSPARENT: &[FK] = &[FK::Pretty, FK::SmileReencode, FK::CtParams, FK::TrailingWs, FK::LeadingWs];
+const REQ_TRANSPARENT: &[FK] = &[FK::Pretty, FK::SmileReencode, FK::CtParams, FK::TrailingWs, FK::LeadingWs, FK::UnionReorder];
 const REQ_BODY_DAMAGE: &[FK] = &[
     FK::StreamError,
     FK::Truncate,
@@ -62,6 +62,7 @@ const REQ_BODY_DAMAGE: &[FK] = &[
     FK::UnknownField,
     FK::TypeConfusion,
     FK::WrongDocument,
+    FK::UnionMismatch,
     FK::ByteFlip,
 ];
 const PARAM_FAULTS: &[FK] = &[
@@ -84,6 +85,8 @@ const RESP_DAMAGE: &[FK] = &[
     FK::UnknownField,
     FK::TypeConfusion,
     FK::WrongDocument,
+    FK::UnionMismatch,
+    FK::UnionReorder,
     FK::ByteFlip,
     FK::Pretty,
     FK::TrailingWs,
@@ -273,10 +276,26 @@ impl Engine for WireEngine {
             // non-safe arguments, tokens and injected garbage) replaced by another one of the same
             // shape; whatever is safe to log must come out identical
             let tape = ctx.lock().tape.rec.clone();
-            let twin = Ctx::new(crate::tape::Tape::replay(tape), false);
-            let other = self.run_inner(&twin, variant, true);
+            let log_on = ctx.lock().log_enabled;
+            let twin = Ctx::new(crate::tape::Tape::replay(tape), log_on);
+            let other = crate::runner::on_fresh_thread(|| self.run_inner(&twin, variant, true));
+            if log_on && channels != other {
+                // the twin's history, for whoever reads the replay
+                let lines = std::mem::take(&mut twin.lock().log);
+                for l in lines {
+                    ctx.log(|| format!("twin| {}", l));
+                }
+            }
             ctx.count("probe.c09_twin_runs");
-            if channels.first().map(|c| c.0.as_str()) == Some("not_comparable") || other.first().map(|c| c.0.as_str()) == Some("not_comparable") {
+            let same_questions = {
+                let (a, b) = (ctx.lock(), twin.lock());
+                a.tape.shape == b.tape.shape && a.tape.consumed() >= b.tape.consumed()
+            };
+            if !same_questions {
+                // a decision of the simulation itself depended on the data (a body whose map keys
+                // sort differently is re-spelled in one run only): the runs are not twins
+                ctx.count("probe.c09_twin_diverged");
+            } else if channels.first().map(|c| c.0.as_str()) == Some("not_comparable") || other.first().map(|c| c.0.as_str()) == Some("not_comparable") {
                 ctx.count("probe.c09_twin_not_comparable");
             } else if channels.len() != other.len() {
                 ctx.violation("C09", "safe_channels_depend_on_non_safe_data:shape", format!("{} safe channels vs {} when only non-safe data changed: {:?} vs {:?}", channels.len(), other.len(), channels, other));
@@ -384,7 +403,7 @@ impl WireEngine {
         };
         // several calls on one service instance: interleaved by the scheduler (async) or one
         // after the other (blocking) — state must not carry over between calls
-        let ncalls = if faults_on && matches!(self.profile, Profile::C04 | Profile::C09) && ctx.chance(1, 3) {
+        let ncalls = if faults_on && matches!(self.profile, Profile::C04 | Profile::C09 | Profile::C07 | Profile::C19) && ctx.chance(1, 3) {
             2 + ctx.draw(3) as usize
         } else {
             1
@@ -393,7 +412,9 @@ impl WireEngine {
         // thread and service instance (blocking flavour: strictly one after the other)
         let clean_follow_up = faults_on && matches!(self.profile, Profile::C06 | Profile::C18) && !is_async && ctx.chance(1, 3);
         let ncalls = if clean_follow_up { 2 } else { ncalls };
-        ctx.sig(if is_async { "async" } else { "blocking" });
+        // several blocking calls: one after the other on this thread, or each on its own thread
+        let threaded = !is_async && !clean_follow_up && ncalls > 1 && ctx.chance(1, 2);
+        ctx.sig(if is_async { "async" } else if threaded { "blocking-threads" } else { "blocking" });
         let mut calls: Vec<CallRec> = Vec::new();
         let mut transports: Vec<SimTransport> = Vec::new();
         for c in 0..ncalls {
@@ -492,7 +513,25 @@ impl WireEngine {
         }
         // ---- execute
         let mut liveness: Option<String> = None;
-        if !st.is_async {
+        if !st.is_async && threaded {
+            // blocking calls in flight at once: real threads, released one at a time at the
+            // simulation's seams, the tape choosing who continues
+            ctx.count("sched.blocking_threaded_runs");
+            let baton = crate::ctx::Baton::new(ncalls);
+            std::thread::scope(|s| {
+                for (c, (call, tr)) in calls.iter_mut().zip(&transports).enumerate() {
+                    let baton = baton.clone();
+                    let ctx = ctx.clone();
+                    s.spawn(move || {
+                        baton.enter(c, &ctx);
+                        let r = guarded(|| crate::mirror::call_blocking(tr, call.client_kind, call.ep, &call.args));
+                        call.result = result_of(r);
+                        baton.leave(c, &ctx);
+                    });
+                }
+                baton.start(ctx);
+            });
+        } else if !st.is_async {
             for (c, call) in calls.iter_mut().enumerate() {
                 let tr = &transports[c];
                 let r = guarded(|| crate::mirror::call_blocking(tr, call.client_kind, call.ep, &call.args));
@@ -580,7 +619,28 @@ impl WireEngine {
             ctx.violation("C04", "liveness", l);
         }
         let exchanges = std::mem::take(&mut *st.sh.exchanges.lock().unwrap());
-        crate::oracles::evaluate(ctx, &st.knobs, &calls, &exchanges, &st.sh.handler, st.is_async);
+        // calls the client's own parameter encoder has to refuse: an error, and nothing sent
+        for (c, call) in calls.iter_mut().enumerate() {
+            if !crate::mirror::client_refuses(call.ep, &call.args) {
+                continue;
+            }
+            ctx.count("probe.call_refused_by_client_encoder");
+            let sent = exchanges.iter().any(|e| e.call as usize == c);
+            match &call.result {
+                CallResult::Err(_) if !sent => call.result = CallResult::Cancelled,
+                CallResult::Cancelled | CallResult::NotRun => {}
+                CallResult::Panic(_) => {}
+                other => {
+                    let what = match other {
+                        CallResult::Ok(_) => "returned a value",
+                        _ => "failed only after sending a request",
+                    };
+                    ctx.violation("C04", "encoder_refusal_ignored", format!("MacroOnly.segments: the parameter encoder refused the value but the call {}", what));
+                    call.result = CallResult::Cancelled;
+                }
+            }
+        }
+        crate::oracles::evaluate(ctx, &st.knobs, &calls, &exchanges, &st.sh.handler, st.is_async || threaded);
         crate::oracles::safe_channels(&exchanges)
     }
 }
